@@ -2,6 +2,7 @@ package main
 
 import (
 	"fmt"
+	"reflect"
 	"strings"
 )
 
@@ -115,6 +116,29 @@ func (c11) AfterOp(x *Exec, task, idx int, op Op, out Outcome) {
 		}
 		st.iso[op.String()] = maskAddr(op, out)
 		st.isoRaw[op.String()] = out.Raw
+		// containers handed back are the caller's: altering them must not
+		// reach the structure (the Auxiliary map is the documented exception)
+		touched := false
+		for _, raw := range out.Raw {
+			// Index/Front/Back/Traverse/Expression hand back the stored element
+			// itself by design: that is the user's own value, not a container
+			if op.M == "Index" || op.M == "Front" || op.M == "Back" || op.M == "Traverse" || op.M == "Expression" {
+				break
+			}
+			if scribbleAny(raw) {
+				touched = true
+			}
+		}
+		if touched {
+			after := x.w.snapshot()
+			for i := range after {
+				if after[i] != st.base[i] {
+					x.fail("container-aliased:"+op.M, fmt.Sprintf("altering the container returned by %s changed %s (%s):\n before: %s\n after:  %s", op, x.w.objs[i].name, diffFields(st.base[i], after[i]), st.base[i], after[i]))
+					return
+				}
+			}
+			x.probe("returned-container-scribbled")
+		}
 		return
 	}
 	if want, ok := st.iso[op.String()]; ok {
@@ -218,4 +242,36 @@ func (c11) End(x *Exec) {
 		sb.WriteString("|")
 	}
 	x.stats.ShapeSig = sb.String() + fmt.Sprint(x.sched)
+}
+
+// scribbleAny overwrites the elements of any slice value a query returned
+// ([]any, []string, [][]string, ...), recursively; it reports whether there
+// was anything to overwrite.
+func scribbleAny(v any) bool {
+	if v == nil {
+		return false
+	}
+	rv := reflect.ValueOf(v)
+	if rv.Kind() != reflect.Slice || rv.Len() == 0 {
+		return false
+	}
+	for i := 0; i < rv.Len(); i++ {
+		e := rv.Index(i)
+		if e.Kind() == reflect.Interface && !e.IsNil() {
+			scribbleAny(e.Interface())
+		} else if e.Kind() == reflect.Slice {
+			scribbleAny(e.Interface())
+		}
+		if e.CanSet() {
+			switch e.Kind() {
+			case reflect.String:
+				e.SetString("SCRIBBLED")
+			case reflect.Interface:
+				e.Set(reflect.ValueOf("SCRIBBLED"))
+			default:
+				e.Set(reflect.Zero(e.Type()))
+			}
+		}
+	}
+	return true
 }
